@@ -126,39 +126,80 @@ theorem countNL_expandTabs (ts : Nat) (s : List Char) : countNL (expandTabs ts s
 
 /-! ### the terminated lines of a source -/
 
-theorem ensureNL_lines (s : List Char) :
-    ∃ L : List Line, L ≠ [] ∧ (∀ l ∈ L, '\n' ∉ l) ∧ ensureNL s = unlinesT L ∧ Trail 1 L (splitNL s) := by
+/-- The lines of a source the way a reader counts them: a final newline ends the last line, it does not start
+an empty one (`s.split("\n")` without the empty string a final newline leaves behind). -/
+def srcLines (s : List Char) : List Line := if endsNL s then (splitNL s).dropLast else splitNL s
+
+theorem ensureNL_srcLines (s : List Char) :
+    srcLines s ≠ [] ∧ (∀ l ∈ srcLines s, '\n' ∉ l) ∧ ensureNL s = unlinesT (srcLines s) ∧
+      Trail 1 (srcLines s) (splitNL s) := by
+  unfold srcLines
   cases h : endsNL s with
   | true =>
     obtain ⟨s0, rfl⟩ := endsNL_iff.mp h
-    refine ⟨splitNL s0, splitNL_ne_nil s0, splitNL_no_nl s0, ?_, 1, Nat.le_refl _, ?_⟩
-    · unfold ensureNL; rw [if_pos h]; exact append_nl_eq_unlinesT s0
-    · have := splitNL_unlinesT_append (splitNL s0) [] (splitNL_no_nl s0) (by simp)
-      rw [List.append_nil, ← append_nl_eq_unlinesT s0] at this
-      rw [this]; rfl
+    have hsp : splitNL (s0 ++ ['\n']) = splitNL s0 ++ [[]] := by
+      have := splitNL_unlinesT_append (splitNL s0) [] (splitNL_no_nl s0) (by simp)
+      rwa [List.append_nil, ← append_nl_eq_unlinesT s0] at this
+    simp only [if_true, hsp, List.dropLast_concat]
+    refine ⟨splitNL_ne_nil s0, splitNL_no_nl s0, ?_, 1, Nat.le_refl _, rfl⟩
+    unfold ensureNL; rw [if_pos h]; exact append_nl_eq_unlinesT s0
   | false =>
-    refine ⟨splitNL s, splitNL_ne_nil s, splitNL_no_nl s, ?_, 0, by omega, by simp⟩
+    simp only [Bool.false_eq_true, if_false]
+    refine ⟨splitNL_ne_nil s, splitNL_no_nl s, ?_, 0, by omega, by simp⟩
     simp [ensureNL, h, append_nl_eq_unlinesT s]
+
+theorem ensureNL_lines (s : List Char) :
+    ∃ L : List Line, L ≠ [] ∧ (∀ l ∈ L, '\n' ∉ l) ∧ ensureNL s = unlinesT L ∧ Trail 1 L (splitNL s) :=
+  ⟨srcLines s, ensureNL_srcLines s⟩
+
+theorem mem_ensureNL {s : List Char} {c : Char} (h : c ∈ ensureNL s) : c ∈ s ∨ c = '\n' := by
+  unfold ensureNL at h
+  split at h
+  · exact Or.inl h
+  · rcases List.mem_append.mp h with h1 | h1
+    · exact Or.inl h1
+    · exact Or.inr (by simpa using h1)
+
+/-- the lines of a clean source hold nothing `Text` would strip -/
+theorem srcLines_clean {s : List Char} (h : Clean s) : ∀ l ∈ srcLines s, ∀ c ∈ l, isStripCtl c = false := by
+  intro l hl c hc
+  have : c ∈ unlinesT (srcLines s) := by
+    unfold unlinesT
+    exact List.mem_flatMap.mpr ⟨l, hl, by simp [hc]⟩
+  rw [← (ensureNL_srcLines s).2.2.1] at this
+  rcases mem_ensureNL this with h1 | h1
+  · exact (h c h1).1
+  · subst h1; decide
+
+theorem map_stripCtl_id {X : List Line} (h : ∀ l ∈ X, ∀ c ∈ l, isStripCtl c = false) : X.map stripCtl = X := by
+  induction X with
+  | nil => rfl
+  | cons x xs ih =>
+    simp only [List.map_cons]
+    rw [ih (fun l hl => h l (by simp [hl]))]
+    congr 1
+    unfold stripCtl
+    exact List.filter_eq_self.mpr (fun c hc => by simp [h x (by simp) c hc])
 
 /-- What `highlight` returns on a clean source under the lexer contract: after `remove_suffix`, the first `m`
 terminated lines of the source, where `m` covers the requested range (or everything). -/
 theorem highlight_lines (found : Bool) (toks : List Line) (src : List Char) (range : Option (Int × Int))
     (hclean : Clean src) (hlex : found = true → toks.flatten = pygPre false src) :
-    ∃ (L : List Line) (m : Nat) (text : List Char),
-      L ≠ [] ∧ (∀ l ∈ L, '\n' ∉ l) ∧ Trail 1 L (splitNL src) ∧ ensureNL src = unlinesT L ∧
+    ∃ (m : Nat) (text : List Char),
       highlight false found toks src range = .ok text ∧
       text <+: ensureNL src ∧
-      removeSuffixNL text = removeSuffixNL (unlinesT (L.take m)) ∧ 1 ≤ m ∧
-      (range = none → L.length ≤ m) ∧
-      (∀ a b, range = some (a, b) → b.toNat ≤ m ∨ L.length ≤ m) := by
-  obtain ⟨L, hne, hno, hen, htr⟩ := ensureNL_lines src
+      removeSuffixNL text = removeSuffixNL (unlinesT ((srcLines src).take m)) ∧ 1 ≤ m ∧
+      (range = none → (srcLines src).length ≤ m) ∧
+      (∀ a b, range = some (a, b) → b.toNat ≤ m ∨ (srcLines src).length ≤ m) := by
+  obtain ⟨hne, hno, hen, htr⟩ := ensureNL_srcLines src
+  generalize srcLines src = L at *
   have hlen : 1 ≤ L.length := by
     cases L with
     | nil => exact absurd rfl hne
     | cons _ _ => simp
   cases found with
   | false =>
-    refine ⟨L, L.length, src, hne, hno, htr, hen, ?_, ?_, ?_, hlen, fun _ => Nat.le_refl _, fun _ _ _ => Or.inr (Nat.le_refl _)⟩
+    refine ⟨L.length, src, ?_, ?_, ?_, hlen, fun _ => Nat.le_refl _, fun _ _ _ => Or.inr (Nat.le_refl _)⟩
     · simp [highlight, stripCtl_clean src hclean]
     · unfold ensureNL; split
       · exact List.prefix_refl _
@@ -168,13 +209,13 @@ theorem highlight_lines (found : Bool) (toks : List Line) (src : List Char) (ran
     have hflat : toks.flatten = unlinesT L := by rw [hlex rfl, pygPre_clean src hclean, hen]
     cases range with
     | none =>
-      refine ⟨L, L.length, toks.flatten, hne, hno, htr, hen, ?_, ?_, ?_, hlen, fun _ => Nat.le_refl _, fun _ _ h => by cases h⟩
+      refine ⟨L.length, toks.flatten, ?_, ?_, ?_, hlen, fun _ => Nat.le_refl _, fun _ _ h => by cases h⟩
       · simp [highlight]
       · rw [hflat, hen]; exact List.prefix_refl _
       · rw [List.take_length, hflat]
     | some ab =>
       obtain ⟨a, b⟩ := ab
-      refine ⟨L, rangeEnd a b, takeThroughNL (rangeEnd a b) toks.flatten, hne, hno, htr, hen, highlight_ranged toks src a b, ?_, ?_,
+      refine ⟨rangeEnd a b, takeThroughNL (rangeEnd a b) toks.flatten, highlight_ranged toks src a b, ?_, ?_,
         (by have := (rangeEnd_ge a b).2; omega), (fun h => by cases h), ?_⟩
       · rw [hflat, hen]; exact takeThroughNL_prefix _ _
       · rw [hflat, takeThroughNL_unlinesT L _ hno]
@@ -190,42 +231,83 @@ theorem take_ne_nil {L : List Line} (h : L ≠ []) {m : Nat} (hm : 1 ≤ m) : L.
     | zero => omega
     | succ k => simp
 
-/-- Master lemma: without indent guides, on a clean source and under the lexer contract, the repaired code
-selects the expected lines, except that up to two empty lines at the very end may be missing. -/
-theorem selected_trail (o : Opts) (found : Bool) (lex : List Char → List Line) (code : List Char)
-    (hclean : Clean code)
-    (hlex : found = true → (lex (expandTabs o.tabSize code)).flatten = pygPre false (expandTabs o.tabSize code))
+/-- `remove_suffix("\n")` then `split("\n", allow_blank=True)` gives the terminated lines back, all of them -/
+theorem textSplit_allow_unlinesT (M : List Line) (hne : M ≠ []) (hM : ∀ l ∈ M, '\n' ∉ l) :
+    textSplit (removeSuffixNL (unlinesT M)) true = M := by
+  obtain ⟨M0, x, rfl⟩ : ∃ M0 x, M = M0 ++ [x] := ⟨M.dropLast, M.getLast hne, (List.dropLast_concat_getLast hne).symm⟩
+  have e1 : unlinesT (M0 ++ [x]) = (unlinesT M0 ++ x) ++ ['\n'] := by simp [unlinesT_append]
+  rw [e1, removeSuffixNL_append_nl]
+  unfold textSplit
+  rw [splitNL_unlinesT_append M0 x (fun l hl => hM l (by simp [hl])) (hM x (by simp))]
+  simp
+
+/-- Master lemma, exact form: without indent guides, on a clean source and under the lexer contract, the repaired
+code selects
+* with a range `(a, b)`, `0 ≤ b`: EXACTLY lines `a..b` of the source, clipped to the lines that exist — interior
+  blank lines that end the range included;
+* without a range: all source lines, except that one empty line at the very end of the source may be missing. -/
+theorem selected_exact (o : Opts) (found : Bool) (lex : List Char → List Line) (code : List Char)
+    (hclean : Clean (shownCode o code))
+    (hlex : found = true → (lex (expandTabs o.tabSize (shownCode o code))).flatten = pygPre false (expandTabs o.tabSize (shownCode o code)))
     (hg : (o.indentGuides && !o.asciiOnly) = false)
     (hb : ∀ a b, o.lineRange = some (a, b) → 0 ≤ b) :
-    ∃ sel, selectedLines false o found lex code = .ok sel ∧
-      Trail 2 sel (expectedLines o.lineRange (splitNL (expandTabs o.tabSize code))) := by
-  obtain ⟨L, m, text, hne, hno, htr, _, hhl, _, hrs, hm, hnone, hsome⟩ :=
-    highlight_lines found (lex (expandTabs o.tabSize code)) (expandTabs o.tabSize code) o.lineRange
-      (hclean.expandTabs o.tabSize) hlex
-  have hsplit : textSplit (removeSuffixNL text) false = popBlank (L.take m) := by
-    rw [hrs, textSplit_removeSuffix_unlinesT _ (take_ne_nil hne hm) (fun l hl => hno l (List.mem_of_mem_take hl))]
+    ∃ sel, selectedLines false false o found lex code = .ok sel ∧
+      (o.lineRange = none → Trail 1 sel (srcLines (expandTabs o.tabSize (shownCode o code)))) ∧
+      (∀ a b, o.lineRange = some (a, b) →
+        sel = ((srcLines (expandTabs o.tabSize (shownCode o code))).take b.toNat).drop (a - 1).toNat) := by
+  have hcl := hclean.expandTabs o.tabSize
+  obtain ⟨m, text, hhl, _, hrs, hm, hnone, hsome⟩ :=
+    highlight_lines found (lex (expandTabs o.tabSize (shownCode o code))) (expandTabs o.tabSize (shownCode o code)) o.lineRange hcl hlex
+  obtain ⟨hne, hno, _, _⟩ := ensureNL_srcLines (expandTabs o.tabSize (shownCode o code))
+  have hLc := srcLines_clean hcl
+  generalize srcLines (expandTabs o.tabSize (shownCode o code)) = L at *
+  have htake_no : ∀ l ∈ L.take m, '\n' ∉ l := fun l hl => hno l (List.mem_of_mem_take hl)
   unfold selectedLines
-  simp only [hhl, hg, hsplit]
+  simp only [hhl, hg]
   cases hr : o.lineRange with
   | none =>
-    refine ⟨popBlank (L.take m), by simp, ?_⟩
-    have : L.take m = L := List.take_of_length_le (hnone hr)
-    rw [this]
-    exact ((popBlank_trail L).trans htr)
+    have hsplit : textSplit (removeSuffixNL text) false = popBlank (L.take m) := by
+      rw [hrs, textSplit_removeSuffix_unlinesT _ (take_ne_nil hne hm) htake_no]
+    have hLm : L.take m = L := List.take_of_length_le (hnone hr)
+    have hstrip : (popBlank L).map stripCtl = popBlank L :=
+      map_stripCtl_id (fun l hl => hLc l ((popBlank_prefix' L).subset hl))
+    refine ⟨popBlank L, by simp [hsplit, hLm, hstrip], fun _ => popBlank_trail L, fun a b h => by cases h⟩
   | some ab =>
     obtain ⟨a, b⟩ := ab
     have hb0 : 0 ≤ b := hb a b hr
-    refine ⟨pySlice (popBlank (L.take m)) (lineOffset o) b, by simp, ?_⟩
+    have hsplit : textSplit (removeSuffixNL text) true = L.take m := by
+      rw [hrs, textSplit_allow_unlinesT _ (take_ne_nil hne hm) htake_no]
+    have hstrip : (L.take m).map stripCtl = L.take m :=
+      map_stripCtl_id (fun l hl => hLc l (List.mem_of_mem_take hl))
     have hoff : lineOffset o = (a - 1).toNat := by simp [lineOffset, hr]
-    rw [pySlice_nonneg _ _ _ hb0, hoff]
-    simp only [expectedLines]
-    apply Trail.drop
-    have h1 : Trail 1 ((popBlank (L.take m)).take b.toNat) ((L.take m).take b.toNat) := (popBlank_trail _).take _
     have h2 : (L.take m).take b.toNat = L.take b.toNat := by
       rcases hsome a b hr with h | h
       · rw [List.take_take, Nat.min_eq_left h]
       · rw [List.take_of_length_le h]
-    rw [h2] at h1
-    exact h1.trans (htr.take _)
+    refine ⟨((L.take b.toNat)).drop (a - 1).toNat, ?_, (fun h => by cases h), ?_⟩
+    · simp only [Option.isSome_some, Bool.not_false, Bool.and_true, hsplit, hstrip]
+      rw [pySlice_nonneg _ _ _ hb0, hoff, h2]
+      simp
+    · intro a' b' h; cases h; rfl
+
+/-- Master lemma, weak form (what the numbering / gutter / traceback arguments use): the selected lines are the
+expected slice of `source.split("\n")` up to at most two empty lines at the very end. -/
+theorem selected_trail (o : Opts) (found : Bool) (lex : List Char → List Line) (code : List Char)
+    (hclean : Clean (shownCode o code))
+    (hlex : found = true → (lex (expandTabs o.tabSize (shownCode o code))).flatten = pygPre false (expandTabs o.tabSize (shownCode o code)))
+    (hg : (o.indentGuides && !o.asciiOnly) = false)
+    (hb : ∀ a b, o.lineRange = some (a, b) → 0 ≤ b) :
+    ∃ sel, selectedLines false false o found lex code = .ok sel ∧
+      Trail 2 sel (expectedLines o.lineRange (splitNL (expandTabs o.tabSize (shownCode o code)))) := by
+  obtain ⟨sel, hs, hnone, hsome⟩ := selected_exact o found lex code hclean hlex hg hb
+  have htr := (ensureNL_srcLines (expandTabs o.tabSize (shownCode o code))).2.2.2
+  refine ⟨sel, hs, ?_⟩
+  cases hr : o.lineRange with
+  | none => exact ((hnone hr).trans htr)
+  | some ab =>
+    obtain ⟨a, b⟩ := ab
+    rw [hsome a b hr]
+    simp only [expectedLines]
+    exact (((htr.take _).drop _).mono (by omega))
 
 end RichModel.Syntax
